@@ -73,6 +73,6 @@ a = s.index("### 0.1 Status per property")
 b = s.index("### 0.2 Seeded breaking changes")
 c = s.index("### 0.4 False alarms", b)
 s = s[:a] + "### 0.1 Status per property\n\n(generated by tools/mkstatus.py from engines/meta, coq/Props, known_findings.txt, evidence/; the full claim text and trusted base per property are in MANIFEST.json)\n\n" + s01 + "\n\n" + \
-    "### 0.2 Seeded breaking changes and which check catches them\n\n(generated by tools/mkstatus.py from seeded/*/meta.json and seeded/RESULTS.json; each change was written by an independent sub-agent given only the property text and a scratch worktree, then confirmed by tools/seedcheck.py in a scratch worktree of /repo HEAD)\n\nThree rounds (suffix -a, -b, -c; later rounds were told which spots were already used). How the checks fared WHEN A CHANGE FIRST ARRIVED: roughly a third to a half were reported with a concrete replay at once; the others were either reported only as a broken proof/tie (`no-failing-input-found`) or missed, and each of those led to an extension of a generator, an oracle, a model or a translator pin (see the engines' commit messages `… caught seeded/…`). The table shows the verdicts of the final campaign on the final tree (all checks as committed). Seeds marked superseded no longer break their property after a later `fix:` commit. A seed whose mechanism lies in another property's code (e.g. C07-c in the OPN layout, C12-c in the UACP handshake, C19-c in the receive loop) is judged by the checks listed in its row.\n\n" + s02 + "\n\n### 0.3 Findings\n\n(generated from known_findings.txt)\n\n" + s03 + "\n" + s[c:]
+    "### 0.2 Seeded breaking changes and which check catches them\n\n(generated by tools/mkstatus.py from seeded/*/meta.json and seeded/RESULTS.json; each change was written by an independent sub-agent given only the property text and a scratch worktree, then confirmed by tools/seedcheck.py in a scratch worktree of /repo HEAD)\n\nThree rounds (suffix -a, -b, -c; later rounds were told which spots were already used). How the checks fared WHEN A CHANGE FIRST ARRIVED: roughly a third to a half were reported with a concrete replay at once; the others were either reported only as a broken proof/tie (`no-failing-input-found`) or missed, and each of those led to an extension of a generator, an oracle, a model or a translator pin (see the engines' commit messages `… caught seeded/…`). Round c came in three batches; the last two (18 changes, C02 C04 C06 C08 C10 C11 C14 C15 C17 C20 C23 C24 C28 C30 C34 C36 C37 C38) arrived after the checks were otherwise finished: FIRST-RUN verdicts of those are recorded in seeded/FIRSTRUN-c2.json, and the misses led to the last extensions (C11: forced schedule with the counter preset at the sequence roll-over plus a failed renewal; C17: the real Open path with the caller's context cancelled after Open; C38: real client/server channels on asymmetric HEL/ACK buffer sizes). The table shows the verdicts of the final campaign on the final tree (all checks as committed). Seeds marked superseded no longer break their property after a later `fix:` commit. A seed whose mechanism lies in another property's code (e.g. C07-c in the OPN layout, C12-c in the UACP handshake, C19-c in the receive loop) is judged by the checks listed in its row.\n\n" + s02 + "\n\n### 0.3 Findings\n\n(generated from known_findings.txt)\n\n" + s03 + "\n" + s[c:]
 open(p, "w").write(s)
 print("DESIGN.md sections 0.1/0.2 rewritten")
